@@ -45,6 +45,8 @@ enum Speculation {
     AngleAssertion,
     /// `(` ... `)` `=>` as a function type rather than a parenthesized type
     FunctionType,
+    /// `<` ... `>` `(` ... `)` `=>` as a generic arrow function rather than a type assertion
+    GenericArrow,
 }
 
 /// Limit on how deeply statements, expressions, patterns and types may nest.
@@ -2410,6 +2412,10 @@ impl<'a> Parser<'a> {
         // TypeScript angle bracket type assertion: <Type>value
         // Must check for < and distinguish from comparison or generics
         if self.check(&TokenKind::Lt) {
+            // Generic arrow function: <T>(x: T) => x, <T,>(x) => x, <T extends U = V>(..) => ..
+            if let Some(arrow) = self.try_parse_generic_arrow_function(start, false)? {
+                return Ok(arrow);
+            }
             // Try to parse as type assertion <Type>expr
             if let Some(expr) = self.try_parse_angle_bracket_assertion()? {
                 return Ok(expr);
@@ -3361,6 +3367,68 @@ impl<'a> Parser<'a> {
         Err(self.unexpected_token("')' or ','"))
     }
 
+    /// Try to parse a generic arrow function: `<T>(x: T): R => body` (at the `<`).
+    /// Returns None, with the position restored, if the text up to `=>` is not the head of
+    /// one (it may be a type assertion `<T>(x)`); once `=>` has been seen the reading is final.
+    fn try_parse_generic_arrow_function(
+        &mut self,
+        start: Span,
+        is_async: bool,
+    ) -> Result<Option<Expression>, JsError> {
+        if self.speculation_known_to_fail(Speculation::GenericArrow) {
+            return Ok(None);
+        }
+        let lt_offset = self.current.span.start;
+        let checkpoint = self.lexer.checkpoint();
+        let saved_current = self.current.clone();
+        let saved_previous = self.previous.clone();
+
+        if let Ok(Some((type_parameters, params))) = self.parse_generic_arrow_head() {
+            let mut arrow = self.parse_arrow_function_from_params_async(params, start, is_async)?;
+            if let Expression::ArrowFunction(f) = &mut arrow {
+                f.type_parameters = Some(type_parameters);
+            }
+            return Ok(Some(arrow));
+        }
+        self.speculation_failed()?;
+        self.lexer.restore(checkpoint);
+        self.current = saved_current;
+        self.previous = saved_previous;
+        self.remember_failed_speculation(Speculation::GenericArrow, lt_offset);
+        Ok(None)
+    }
+
+    /// `<` type parameters `>` `(` parameters `)`, followed by `=>` or by `:` type `=>`.
+    /// Stops before the return type; Ok(None) if the text is something else.
+    fn parse_generic_arrow_head(
+        &mut self,
+    ) -> Result<Option<(TypeParameters, Vec<FunctionParam>)>, JsError> {
+        let Some(type_parameters) = self.parse_optional_type_parameters()? else {
+            return Ok(None);
+        };
+        if !self.match_token(&TokenKind::LParen) {
+            return Ok(None);
+        }
+        let params = self.try_parse_arrow_params()?;
+        if self.check(&TokenKind::Arrow) {
+            return Ok(Some((type_parameters, params)));
+        }
+        if self.check(&TokenKind::Colon) {
+            let colon_checkpoint = self.lexer.checkpoint();
+            let colon_current = self.current.clone();
+            let colon_previous = self.previous.clone();
+            let is_return_type =
+                self.parse_optional_return_type().is_ok() && self.check(&TokenKind::Arrow);
+            self.lexer.restore(colon_checkpoint);
+            self.current = colon_current;
+            self.previous = colon_previous;
+            if is_return_type {
+                return Ok(Some((type_parameters, params)));
+            }
+        }
+        Ok(None)
+    }
+
     /// Try to parse arrow function parameters (with optional type annotations)
     /// Returns Ok with params if successful, Err otherwise
     fn try_parse_arrow_params(&mut self) -> Result<Vec<FunctionParam>, JsError> {
@@ -3512,6 +3580,13 @@ impl<'a> Parser<'a> {
             }
             self.require_token(&TokenKind::RParen)?;
             return self.parse_arrow_function_from_params_async(params, start, true);
+        }
+
+        // async <T>(params) => (generic)
+        if self.check(&TokenKind::Lt)
+            && let Some(arrow) = self.try_parse_generic_arrow_function(start, true)?
+        {
+            return Ok(arrow);
         }
 
         // async id => (single param)
